@@ -41,4 +41,12 @@ PROPS = {
         "assumptions": ["rename(2) atomic; a crash means the process dies (no torn writes of the signer file)"],
         "notes": [],
     },
+    "C14": {
+        "props_file": "Props/C14.v",
+        "engines": [{"name": "admin", "n_quick": 400, "n_thorough": 10000}],
+        "level_text": "Coq theorems over an executable model of AdminOp.CheckMajor23/ExecTX/ProcessAdminOP/EndBlock/updateValidators on the ValidatorSet model: acceptance implies >2/3 of DISTINCT current validators with valid signatures, right sender and nonce, known command; rejected requests change nothing; an applied request is settled and a settled (replayed) request is a no-op; applying the pending list is total (double removal included) and keeps the set sorted and duplicate-free. Tied to /repo by differential runs through the real plugin on two replicas (one reloaded from the persisted set) with real ed25519 signatures, duplicates, foreign keys, wrong sender/nonce, verbatim replays, plus monitors; the 0xfe precompile is probed for sender authentication (known finding F-14b).",
+        "level_note": "signature validity enters as bits computed by the harness; a public key is identified with its validator address; wf_vals (sorted, non-negative powers, total < 2^62, cache empty-or-right) is a hypothesis of the 2/3 theorem",
+        "assumptions": ["non-negative voting powers with total < 2^62", "the EVM path into ExecTX (precompile 0xfe, contract, node glue) is covered only by the sender-authentication probe"],
+        "notes": [],
+    },
 }
